@@ -272,7 +272,9 @@ macro_rules! impl_time_cast {
     ($($T: ty),*) => {
         $(
             impl<U: TimeUnitTrait> Cast<$T> for DateTime<U> {
-                #[inline] fn cast(self) -> $T { Cast::<i64>::cast(self).cast() }
+                #[inline] fn cast(self) -> $T {
+                    if self.is_none() { f64::NAN.cast() } else { Cast::<i64>::cast(self).cast() }
+                }
             }
 
             impl<U: TimeUnitTrait> Cast<Option<$T>> for DateTime<U> {
@@ -287,7 +289,9 @@ macro_rules! impl_time_cast {
 
 
             impl Cast<$T> for TimeDelta {
-                #[inline] fn cast(self) -> $T { Cast::<i64>::cast(self).cast() }
+                #[inline] fn cast(self) -> $T {
+                    if self.is_none() { f64::NAN.cast() } else { Cast::<i64>::cast(self).cast() }
+                }
             }
 
             impl Cast<Option<$T>> for TimeDelta {
@@ -301,7 +305,9 @@ macro_rules! impl_time_cast {
             }
 
             impl Cast<$T> for Time {
-                #[inline] fn cast(self) -> $T { Cast::<i64>::cast(self).cast() }
+                #[inline] fn cast(self) -> $T {
+                    if self.is_none() { f64::NAN.cast() } else { Cast::<i64>::cast(self).cast() }
+                }
             }
 
             impl Cast<Option<$T>> for Time {
@@ -350,6 +356,9 @@ impl Cast<i64> for TimeDelta {
 impl Cast<Option<i64>> for TimeDelta {
     #[inline]
     fn cast(self) -> Option<i64> {
+        if self.is_nat() {
+            return None;
+        }
         let months = self.months;
         if months != 0 {
             panic!("not support cast TimeDelta to i64 when months is not zero")
